@@ -1,6 +1,8 @@
 package main
 
 import (
+	"encoding/base64"
+	"encoding/hex"
 	"math"
 
 	. "vh/lib"
@@ -9,6 +11,8 @@ import (
 	"github.com/cnotch/ipchub/av/codec/aac"
 	"github.com/cnotch/ipchub/av/codec/h264"
 	"github.com/cnotch/ipchub/av/codec/hevc"
+	"github.com/cnotch/ipchub/av/format/sdp"
+	"github.com/cnotch/ipchub/media"
 	"github.com/cnotch/ipchub/utils"
 	"github.com/cnotch/ipchub/utils/bits"
 )
@@ -77,7 +81,63 @@ func vpsDecode(data []byte) Val {
 	return L(I(1), I(int64(vps.Vps_max_sub_layers_minus1)), U(uint64(vps.Vps_num_units_in_tick)), U(uint64(vps.Vps_time_scale)))
 }
 
+const sdpHead = "v=0\r\no=- 0 0 IN IP4 127.0.0.1\r\ns=c15\r\nc=IN IP4 0.0.0.0\r\nt=0 0\r\n"
+
+var dummyPps = []byte{0x68, 0xce, 0x38, 0x80}
+var dummyPps265 = []byte{0x44, 0x01, 0xc1, 0x72, 0xb4, 0x62, 0x40}
+var dummyVps265 = []byte{0x40, 0x01, 0x0c, 0x01, 0xff, 0xff, 0x01, 0x60, 0x00, 0x00, 0x03, 0x00, 0x90, 0x00, 0x00, 0x03, 0x00, 0x00, 0x03, 0x00, 0x5d, 0x95, 0x98, 0x09}
+
+func videoSdp(kind int64, nal []byte) string {
+	b64 := base64.StdEncoding.EncodeToString
+	if kind == 264 {
+		return sdpHead + "m=video 0 RTP/AVP 96\r\na=rtpmap:96 H264/90000\r\n" +
+			"a=fmtp:96 packetization-mode=1;sprop-parameter-sets=" + b64(nal) + "," + b64(dummyPps) + ";profile-level-id=64001f\r\na=control:streamid=0\r\n"
+	}
+	return sdpHead + "m=video 0 RTP/AVP 96\r\na=rtpmap:96 H265/90000\r\n" +
+		"a=fmtp:96 sprop-vps=" + b64(dummyVps265) + ";sprop-sps=" + b64(nal) + ";sprop-pps=" + b64(dummyPps265) + "\r\na=control:streamid=0\r\n"
+}
+
+func videoObs(v *codec.VideoMeta) Val {
+	if v.Width == 0 { // MetadataIsReady leaves the metadata empty when the SPS does not decode
+		return L(I(0))
+	}
+	return L(I(1), I(int64(v.Width)), I(int64(v.Height)), f64bits(v.FrameRate), Bo(v.FixedFrameRate))
+}
+
+// the SPS inside a generated SDP through sdp.ParseMetadata and media.NewStream; both must agree
+func sdpVideo(kind int64, nal []byte) Val {
+	raw := videoSdp(kind, nal)
+	var v codec.VideoMeta
+	var a codec.AudioMeta
+	if err := sdp.ParseMetadata(raw, &v, &a); err != nil {
+		return L(I(3))
+	}
+	s := media.NewStream("/c15/glue", raw)
+	o1, o2 := videoObs(&v), videoObs(&s.Video)
+	s.Close()
+	if o1.String() != o2.String() {
+		return L(I(4), o1, o2)
+	}
+	return o1
+}
+
 func init() {
+	commands["sdp264"] = func(c Val) Val { return sdpVideo(264, c.At(1).Bytes()) }
+	commands["sdp265"] = func(c Val) Val { return sdpVideo(265, c.At(1).Bytes()) }
+	commands["sdp264b"] = func(c Val) Val { return sdpVideo(264, c.Bytes()) }
+	commands["sdp265b"] = func(c Val) Val { return sdpVideo(265, c.Bytes()) }
+	// audio: the stream must come up with the rtpmap's rate/channels whatever the config bytes are
+	commands["sdpaac"] = func(c Val) Val {
+		raw := sdpHead + "m=audio 0 RTP/AVP 97\r\na=rtpmap:97 MPEG4-GENERIC/48000/2\r\n" +
+			"a=fmtp:97 streamtype=5;profile-level-id=1;mode=AAC-hbr;sizelength=13;indexlength=3;indexdeltalength=3;config=" +
+			hex.EncodeToString(c.Bytes()) + "\r\na=control:streamid=1\r\n"
+		s := media.NewStream("/c15/glue", raw)
+		defer s.Close()
+		if s.Audio.Codec != "AAC" || s.Audio.SampleRate != 48000 || s.Audio.Channels != 2 {
+			return L(I(2), I(int64(s.Audio.SampleRate)), I(int64(s.Audio.Channels)))
+		}
+		return L(I(1), I(48000), I(2))
+	}
 	commands["h265"] = func(c Val) Val { return h265Decode(c.At(1).Bytes()) }
 	commands["h265b"] = func(c Val) Val { return h265Decode(c.Bytes()) }
 	commands["vps"] = func(c Val) Val { return vpsDecode(c.At(1).Bytes()) }
